@@ -43,14 +43,14 @@ Definition remove_largest_prefix (s : str) : str := largest_prefix_go s (length 
 >>
     tests the prefixes of 1, 2, …, n characters. [iters] = characters not yet consumed,
     [consumed] = characters consumed before this iteration. *)
-Fixpoint smallest_prefix_go (s : str) (iters consumed : nat) : str :=
+Fixpoint smallest_prefix_go_old (s : str) (iters consumed : nat) : str :=
   match iters with
   | O => s
   | S iters' =>
       let next_index := S consumed in
-      if m (firstn next_index s) then skipn next_index s else smallest_prefix_go s iters' next_index
+      if m (firstn next_index s) then skipn next_index s else smallest_prefix_go_old s iters' next_index
   end.
-Definition remove_smallest_prefix (s : str) : str := smallest_prefix_go s (length s) 0.
+Definition remove_smallest_prefix_old (s : str) : str := smallest_prefix_go_old s (length s) 0.
 
 (** [remove_largest_matching_suffix]: [for (idx, _) in s.char_indices()] tests the suffixes
     starting at character 0, 1, …, n-1 (never the empty suffix). *)
@@ -63,29 +63,29 @@ Definition remove_largest_suffix (s : str) : str := largest_suffix_go s (length 
 
 (** [remove_smallest_matching_suffix]: [for (idx, _) in s.char_indices().rev()] tests the
     suffixes starting at character n-1, n-2, …, 0 (never the empty suffix). *)
+Fixpoint smallest_suffix_go_old (s : str) (iters : nat) : str :=
+  match iters with
+  | O => s
+  | S idx => if m (skipn idx s) then firstn idx s else smallest_suffix_go_old s idx
+  end.
+Definition remove_smallest_suffix_old (s : str) : str := smallest_suffix_go_old s (length s).
+
+(** The repaired [smallest] loops iterate over
+    [s.char_indices().map(|(i, _)| i).chain(once(s.len()))] (forwards for the prefix, reversed
+    for the suffix): every cut position 0 … n is tested. *)
+Fixpoint smallest_prefix_go (s : str) (iters idx : nat) : str :=
+  match iters with
+  | O => s
+  | S iters' => if m (firstn idx s) then skipn idx s else smallest_prefix_go s iters' (S idx)
+  end.
+Definition remove_smallest_prefix (s : str) : str := smallest_prefix_go s (S (length s)) 0.
+
 Fixpoint smallest_suffix_go (s : str) (iters : nat) : str :=
   match iters with
   | O => s
   | S idx => if m (skipn idx s) then firstn idx s else smallest_suffix_go s idx
   end.
-Definition remove_smallest_suffix (s : str) : str := smallest_suffix_go s (length s).
-
-(** The repaired [smallest] loops iterate over
-    [s.char_indices().map(|(i, _)| i).chain(once(s.len()))] (forwards for the prefix, reversed
-    for the suffix): every cut position 0 … n is tested. *)
-Fixpoint smallest_prefix_go' (s : str) (iters idx : nat) : str :=
-  match iters with
-  | O => s
-  | S iters' => if m (firstn idx s) then skipn idx s else smallest_prefix_go' s iters' (S idx)
-  end.
-Definition remove_smallest_prefix' (s : str) : str := smallest_prefix_go' s (S (length s)) 0.
-
-Fixpoint smallest_suffix_go' (s : str) (iters : nat) : str :=
-  match iters with
-  | O => s
-  | S idx => if m (skipn idx s) then firstn idx s else smallest_suffix_go' s idx
-  end.
-Definition remove_smallest_suffix' (s : str) : str := smallest_suffix_go' s (S (length s)).
+Definition remove_smallest_suffix (s : str) : str := smallest_suffix_go s (S (length s)).
 
 End Remove.
 
